@@ -13,11 +13,11 @@ RULE = ('seeded random histories (3..12 steps quick, up to 40 thorough) over a p
 IMPL_PARALLEL = True
 
 OPS = ['orth_l', 'orth_r', 'compress_l', 'compress_r', 'add', 'sub', 'apply', 'mpo_add', 'mpo_sub', 'mpo_mul', 'mpo_orth',
-       'split_merge', 'from_vector', 'tdvp1', 'tdvp2', 'dmrg1', 'dmrg2', 'new_state', 'zero_op']
+       'split_merge', 'split_merge', 'from_vector', 'tdvp1', 'tdvp2', 'dmrg1', 'dmrg2', 'new_state', 'new_zero_state', 'zero_split_sweep', 'split_sweep', 'zero_op']
 
 
 def cases(rng, tier):
-    n = {'quick': 60, 'thorough': 500, 'search': 60}[tier]
+    n = {'quick': 200, 'thorough': 1500, 'search': 200}[tier]
     out = []
     for k in range(n):
         steps = rng.randint(3, 12) if tier != 'thorough' else rng.randint(3, 40)
@@ -119,9 +119,27 @@ def impl(case):
                     Am = ptn.merge_mps_tensor_pair(psi.A[k], psi.A[k + 1])
                     A0, A1, qb = ptn.split_mps_tensor(Am, psi.qd, psi.qd, [psi.qD[k], psi.qD[k + 2]], str(rs.choice(['left', 'right', 'sqrt'])), case['tol'])
                     psi.A[k], psi.A[k + 1], psi.qD[k + 1] = A0, A1, qb
+            elif name in ('split_sweep', 'zero_split_sweep'):
+                if name == 'zero_split_sweep' and np.any(H.qd):
+                    states[i] = G.rand_mps(rs, L, d, qclass=str(rs.choice(['unsorted', 'sorted', 'big'])), Dmax=3, qd=np.array(H.qd), connected=False,
+                                           q_total=int(rs.integers(50, 60)))
+                    psi = states[i]
+                order = list(range(L - 1)) if rs.random() < 0.5 else list(reversed(range(L - 1)))
+                for k in order:
+                    Am = ptn.merge_mps_tensor_pair(psi.A[k], psi.A[k + 1])
+                    A0, A1, qb = ptn.split_mps_tensor(Am, psi.qd, psi.qd, [psi.qD[k], psi.qD[k + 2]], str(rs.choice(['left', 'right', 'sqrt'])), case['tol'])
+                    psi.A[k], psi.A[k + 1], psi.qD[k + 1] = A0, A1, qb
             elif name == 'from_vector':
                 if not np.any(H.qd) and d ** L <= 256:
-                    states[j] = ptn.MPS.from_vector(d, L, rs.standard_normal(d ** L), tol=case['tol'])
+                    vec = rs.standard_normal(d ** L)
+                    if rs.random() < 0.5:
+                        # compressible vector: a product state plus a small perturbation (or exactly a basis / product state)
+                        vec = np.ones(1)
+                        for _ in range(L):
+                            vec = np.kron(vec, rs.standard_normal(d))
+                        if rs.random() < 0.5:
+                            vec = vec + 1e-3 * rs.standard_normal(d ** L)
+                    states[j] = ptn.MPS.from_vector(d, L, vec, tol=float(rs.choice([case['tol'], 0.0, 0.01, 0.2])))
                 else:
                     name += '(skipped)'
             elif name in ('tdvp1', 'tdvp2', 'dmrg1', 'dmrg2'):
@@ -139,6 +157,13 @@ def impl(case):
                     name += '(skipped)'
             elif name == 'new_state':
                 states[j] = _state(rs, H, qclass=str(rs.choice(['unsorted', 'sorted', 'repeated'])))
+            elif name == 'new_zero_state':
+                # sector-disjoint bond charges: the zero state (dummy-bond branches of QR / SVD)
+                if np.any(H.qd):
+                    states[j] = G.rand_mps(rs, L, d, qclass=str(rs.choice(['unsorted', 'sorted', 'big'])), Dmax=3, qd=np.array(H.qd), connected=False,
+                                           q_total=int(rs.integers(50, 60)))
+                else:
+                    name += '(skipped)'
             elif name == 'zero_op':
                 # a freshly built MPO from a constructor (graph-to-MPO conversion)
                 ops[1] = _hamiltonian(case, rs, qd=np.array(H.qd))
